@@ -169,7 +169,9 @@ def validate_trace(sdir, module, cfg, trace, props, nparts, block_ev, extra_cons
             consts.update(extra_consts)
         return vf.tlc(sdir, module, cfg, workers=1, timeout=timeout, heap=heap, consts=consts, tag="-val%02d" % i)
 
-    with concurrent.futures.ThreadPoolExecutor(max_workers=min(16, len(files))) as ex:
+    # at most 8 validation JVMs at a time (each may fill its 3 GB heap on the large thorough traces: 16 at a time came to
+    # 55 GB and met the OOM killer on a busy 62 GB machine)
+    with concurrent.futures.ThreadPoolExecutor(max_workers=min(8, len(files))) as ex:
         results = list(ex.map(one, enumerate(files)))
     states = trans = 0
     for r in results:
@@ -412,7 +414,7 @@ def run_part(part, P, pid, tier, seed, sdir, only, binaries, gen_path, idx):
         for tpath in traces:
             with open(tpath) as src:
                 shutil.copyfileobj(src, fh)
-    nparts = 16 if tier == "thorough" else part.get("quick_parts", 8)
+    nparts = 32 if tier == "thorough" else part.get("quick_parts", 8)
     fails, nblocks, vstates, vtrans, results = validate_trace(
         sdir, part["trace_module"], part["trace_cfg"], trace, part["props"], nparts, block_ev,
         extra_consts=part.get("trace_consts"), heap=part.get("trace_heap", "3g"))
